@@ -218,7 +218,33 @@ pub fn generate(g: &mut Gen) {
             let plain = era == "shelley" && g.rng.chance(9, 10);
             let fee = match g.rng.below(10) { 0 => 0, 1 => g.rng.u64_edgy(), _ => g.rng.range(150_000, 900_000) };
             let (mut ins, mut mint, mut outs): (Vec<Val>, Option<Vec<(u8, Vec<(Vec<u8>, i128)>)>>, Vec<Val>);
-            match g.rng.below(24) {
+            match g.rng.below(28) {
+                // name / policy asymmetries around an exactly balanced transaction: an asset name on one side only under a policy
+                // both sides hold, the same name under another policy, a name swapped, a zero-quantity entry on one side
+                24..=27 => {
+                    ins = (0..g.rng.range(1, 2)).map(|_| small_val(g, true)).collect();
+                    if ins.iter().all(|v| v.groups.is_empty()) { ins[0].multi = true; ins[0].groups = vec![(0x11, vec![(vec![0x01], g.rng.range(1, 500) as i128)])]; }
+                    mint = if g.rng.chance(1, 3) { Some(related_mint(g, &ins)) } else { None };
+                    if let Some(m) = &mint { if m.is_empty() { mint = None; } }
+                    outs = balance(g, &ins, &mint, fee, conway);
+                    let qty = *g.rng.pick(&[1i128, 1, 5, 1_000_000, (1i128 << 63), u64::MAX as i128]);
+                    let fresh: Vec<u8> = vec![0x6e, 0x65, 0x77];
+                    let oi = outs.len() - 1;
+                    let held = |v: &Val| v.groups.first().map(|x| x.0);
+                    match g.rng.below(7) {
+                        // produced side only, under a policy the consumed side holds too
+                        0 | 1 => if let Some(p) = held(&outs[oi]) { outs[oi].groups.iter_mut().find(|x| x.0 == p).unwrap().1.push((fresh, qty)); } else if let Some(p) = held(&ins[0]) { outs[oi].multi = true; outs[oi].groups.push((p, vec![(fresh, qty)])); },
+                        // consumed side only
+                        2 => if let Some(p) = held(&ins[0]) { ins[0].groups.iter_mut().find(|x| x.0 == p).unwrap().1.push((fresh, qty)); },
+                        // the same name and quantity under another policy on the produced side
+                        3 => if let Some(gr) = outs[oi].groups.first_mut() { gr.0 = if gr.0 == 0x22 { 0x33 } else { 0x22 }; },
+                        // a name swapped for another one
+                        4 => if let Some(a) = outs[oi].groups.first_mut().and_then(|x| x.1.first_mut()) { a.0 = fresh; },
+                        // zero-quantity entries on one side (harmless where the era can express them)
+                        5 => if let Some(gr) = outs[oi].groups.first_mut() { gr.1.push((fresh, 0)); } else { outs[oi].multi = true; outs[oi].groups.push((0x11, vec![(fresh, 0)])); },
+                        _ => if let Some(gr) = ins[0].groups.first_mut() { gr.1.push((fresh, 0)); },
+                    }
+                }
                 // burns around what the spent inputs hold (exactly, one past, a multiple, far beyond), of assets held by one input
                 // or spread over several inputs / policies, optionally next to a fresh mint of another asset of the same policy;
                 // the outputs carry what a clamping / wrapping / sign-dropping implementation would compute, or the exact rest
